@@ -1216,6 +1216,8 @@ int QSexact_basis_dualstatus(
 	mpq_feas_info fi;
 	EGtimer_t local_timer;
 
+	fi.pstatus = NONOPTIMAL;	/* only the dual side is computed below: no statement about the primal side */
+	fi.dstatus = NONOPTIMAL;
 	mpq_EGlpNumInitVar (fi.totinfeas);
 	EGtimerReset (&local_timer);
 	EGtimerStart (&local_timer);
